@@ -38,7 +38,12 @@ DevCells == {[form |-> "long", n |-> 64, supp |-> FALSE, kb |-> FALSE, kl |-> 0,
               bd |-> 0, dev |-> d] : d \in Devs}
 ShortCells == {[form |-> "short", n |-> 0, supp |-> s, kb |-> k, kl |-> kl, req |-> r, pat |-> "zero", bd |-> 0,
                 dev |-> d] : s \in BOOLEAN, k \in BOOLEAN, kl \in {0, 1, 34}, r \in {0, 1, 700}, d \in {"none", "mod8", "ch16"}}
-Cells == RelevantLong \cup DevCells \cup ShortCells
+\* length classes: the first L-4 bytes of a valid long packet followed by the footer of
+\* the accepted 16-byte form; only L = 16 is a packet (added after seed C02-c, which
+\* accepted every length below 36 as the suppressed form)
+MidCells == {[form |-> "mid", n |-> L, supp |-> TRUE, kb |-> FALSE, kl |-> 0, req |-> r, pat |-> "neg", bd |-> 0,
+              dev |-> "none"] : L \in 12..44, r \in {0, 66}}
+Cells == RelevantLong \cup DevCells \cup ShortCells \cup MidCells
 
 CellFields(c) ==
   [ ptype |-> IF c.dev = "type0" THEN 0 ELSE IF c.dev = "type2" THEN 2 ELSE 1,
@@ -57,7 +62,12 @@ CellFields(c) ==
     keep_last |-> c.kl, keep_bit |-> IF c.kb THEN 1 ELSE 0, supp |-> IF c.supp THEN 1 ELSE 0 ]
 
 SetAt(b, k, v) == [b EXCEPT ![k + 1] = v]
+MidBytes(c) ==
+  LET long == EncodeAdc(CellFields([c EXCEPT !.form = "long", !.n = 64, !.supp = FALSE]))
+      short == EncodeAdc(CellFields([c EXCEPT !.form = "short", !.n = 0])) IN
+  SubSeq(long, 1, c.n - 4) \o SubSeq(short, 13, 16)
 CellBytes(c) ==
+  IF c.form = "mid" THEN MidBytes(c) ELSE
   LET b == EncodeAdc(CellFields(c)) IN
   CASE c.dev = "zero12" -> SetAt(b, 12, 1)
     [] c.dev = "zero13" -> SetAt(b, 13, 128)
@@ -73,6 +83,7 @@ DevOk(d) == d \in {"none", "mod7", "ch15", "ch128", "ch159", "unused14", "unused
 CellOk(c) ==
   /\ DevOk(c.dev)
   /\ IF c.form = "short" THEN c.supp /\ ~c.kb /\ c.kl = 0
+     ELSE IF c.form = "mid" THEN c.n = 16
      ELSE /\ c.n >= 64 /\ c.bd = 0
           /\ (c.kb => c.kl >= 34 /\ c.n > 2 * c.kl - 4)
           /\ IF c.supp THEN c.kb /\ c.n + 2 <= c.req
